@@ -261,7 +261,7 @@ class Harness:
         self.stats["refreshes"] += len(eff.refreshed)
         if eff.ambiguous:
             self.stats["ambiguous_zero_and_positive"] += 1
-        for p in self.probes.values():
+        for p in self.all_probes.values():
             p.calls = []
         self.cur = ("resp", eff, dict(self.probes), t_ms)
         self.mid_changes = set()
@@ -320,6 +320,10 @@ class Harness:
                 if done[1] != after:
                     out.add("C06.second-call-state", "cache seen inside async_update_records_complete differs from "
                             f"the new state at {self.w.rel():.6f}: {_diff(done[1], after)}")
+            for pid, p in self.all_probes.items():
+                if pid not in probes_before and pid not in self.probes and pid not in self.mid_changes and p.calls:
+                    out.add("C06.called-while-unregistered", f"probe {pid} is not registered (it was removed) and was "
+                            f"called {[c[0] for c in p.calls]} for the datagram at {self.w.rel():.6f}")
         self.compare_cache(f"after datagram at {self.w.rel():.6f}")
         if self.check_browsers:
             self.check_browser_sets(f"after datagram at {self.w.rel():.6f}")
@@ -418,12 +422,16 @@ class Harness:
 
     # ------------------------------------------------------------ probes
     def op_probe(self, op):
-        self.probe_action(op["act"], op["id"], script=op.get("script"))
+        self.probe_action(op["act"], op["id"], script=op.get("script"), again=bool(op.get("again")))
 
-    def probe_action(self, act, pid, script=None, from_callback=False):
+    def probe_action(self, act, pid, script=None, from_callback=False, again=False):
         zc = self.host.zc
         if act == "add":
             if pid in self.probes:
+                if again:
+                    # registering a listener that is registered already changes nothing: it is one listener
+                    zc.async_add_listener(self.probes[pid], None)
+                    self.stats["probe_registered_again"] = self.stats.get("probe_registered_again", 0) + 1
                 return
             p = self.all_probes.get(pid)
             if p is None:
